@@ -353,6 +353,9 @@ canary('c02-binary-prealloc', 'C02', DEC, """    let (input, data) = take(len as
     Ok((input, OwnedTerm::Binary(v)))""", 'ALLOC:')
 
 # ---- C03 ----
+canary('c03-compressed-inner-remainder', 'C03', DEC, "        Ok((remaining, term)) if remaining.is_empty() => term,\n        _ => return Err(nom::Err::Failure(NomError::new(input, ErrorKind::Fail))),",
+       "        Ok((_remaining, term)) => term,\n        _ => return Err(nom::Err::Failure(NomError::new(input, ErrorKind::Fail))),", 'inner-remainder')
+canary('c02-inflate-limit-global-cap', 'C02', DEC, "ZlibDecoder::new(rest).take(uncompressed_size as u64 + 1);", "ZlibDecoder::new(rest).take(MAX_BINARY_SIZE as u64 + 1);", 'limit-not-declared-size')
 canary('c03-drop-v4-port', 'C03', DEC, "        V4_PORT_EXT => parse_v4_port(input, cache),\n", "", 'missing:120')
 canary('c03-pid-ext-creation-width', 'C03', DEC, """    let (input, id) = be_u32(input)?;
     let (input, serial) = be_u32(input)?;
